@@ -64,6 +64,31 @@ ApplyFaults(w, fs) == IF Len(fs) = 0 THEN w ELSE ApplyFaults(ApplyFault(w, Head(
 RECURSIVE AllApplicable(_, _)
 AllApplicable(w, fs) == Len(fs) = 0 \/ (Applicable(w, Head(fs)) /\ AllApplicable(ApplyFault(w, Head(fs)), Tail(fs)))
 
+(* THE SEQUENCE NUMBER.  RFC 5246 6.1 / RFC 8446 5.3: each direction keeps a 64-bit sequence number,
+   "initially zero ... incremented by one after each record"; "sequence numbers are of type uint64 and
+   may not exceed 2^64-1.  Sequence numbers do not wrap."  It enters the MAC input (RFC 5246 6.2.3.1),
+   the AEAD additional data / explicit nonce (6.2.3.3, RFC 5288) and the TLS 1.3 per-record nonce as
+   its 8-octet big-endian encoding, so it is modelled as exactly that byte string (TLC integers are
+   32-bit): increment with carry, lexicographic order.  Record number i of an epoch that started at
+   `start` carries NumOf(start, i); the receiver expects NumOf(start, next).  Because SeqInc is
+   strictly increasing and never wraps, the numbers of the accepted records are strictly increasing
+   and never repeat within an epoch (SeqStrictlyIncreasing below, checked by TLC on the carry
+   boundaries) - which is what makes every replayed, dropped or reordered record unacceptable.   *)
+Zero8 == [i \in 1..8 |-> 0]
+Max8  == [i \in 1..8 |-> 255]
+RECURSIVE SeqIncAt(_, _)
+SeqIncAt(s, i) == IF s[i] < 255 THEN [s EXCEPT ![i] = @ + 1] ELSE SeqIncAt([s EXCEPT ![i] = 0], i - 1)
+SeqInc(s) == SeqIncAt(s, 8)                      \* defined for s # Max8 only: sequence numbers do not wrap
+SeqLess(a, b) == \E k \in 1..8 : a[k] < b[k] /\ \A j \in 1..(k - 1) : a[j] = b[j]
+RECURSIVE SeqAdd(_, _)
+SeqAdd(s, n) == IF n = 0 THEN s ELSE SeqAdd(SeqInc(s), n - 1)
+NumOf(start, i) == SeqAdd(start, i - 1)          \* the number the i-th record of the epoch is protected with
+RECURSIVE Room(_, _)
+Room(s, k) == IF k <= 1 THEN TRUE ELSE s # Max8 /\ Room(SeqInc(s), k - 1)    \* k records can be numbered from s on
+SeqOfNat(n) == [i \in 1..8 |-> CASE i = 8 -> n % 256 [] i = 7 -> (n \div 256) % 256 [] i = 6 -> (n \div 65536) % 256
+                                  [] i = 5 -> (n \div 16777216) % 256 [] OTHER -> 0]
+SeqStrictlyIncreasing(start, k) == \A i \in 1..k : \A j \in 1..k : i < j => SeqLess(NumOf(start, i), NumOf(start, j))
+
 (* the receiver: next = sequence number expected, bytes = application bytes delivered,
    st = "ok" | "eof" (close_notify accepted) | "error".  It accepts exactly the authentic
    record with the expected number; anything else is an error, after which (and after
@@ -124,7 +149,7 @@ VarName(base, i) == CASE base = "eiv" -> (CASE i = 1 -> "eiv1" [] i = 2 -> "eiv2
 (* RFC 5246 6.2.3.1: MAC(MAC_write_key, seq_num + TLSCompressed.type + TLSCompressed.version +
                          TLSCompressed.length + TLSCompressed.fragment)                  *)
 RecMAC(rp, seq, typ, pt) ==
-  Hmac(rp.mach, Var("mackey", HLen(rp.mach)), Cat(<<U64(seq), U8(typ), U16(rp.ver), U16(TermLen(pt)), pt>>))
+  Hmac(rp.mach, Var("mackey", HLen(rp.mach)), Cat(<<seq, U8(typ), U16(rp.ver), U16(TermLen(pt)), pt>>))
 
 (* admissible padding lengths, RFC 5246 6.2.3.2: "may be any length up to 255 bytes, as long
    as it results in the TLSCiphertext.length being an integral multiple of the block length" *)
@@ -133,8 +158,8 @@ PadChoices(rp, n) == {p \in 0..255 : (n + HLen(rp.mach) + p + 1) % BlockSize(rp.
 (* One record.  i = position in the sequence (sequence number i - 1), skip = RC4 keystream
    bytes consumed before, opt = the sender's free choice (padding length p, or number of
    TLS 1.3 padding zeros).  keyLen / ivLen from the suite.                                *)
-RecordTerm(rp, i, typ, n, skip, opt, keyLen, ivLen) ==
-  LET seq == i - 1
+RecordTermS(rp, i, num, typ, n, skip, opt, keyLen, ivLen) ==      \* num = the 8-byte sequence number
+  LET seq == Lit(num)
       pt == Var(PtName(i), n)
       key == Var("key", keyLen)
   IN
@@ -155,7 +180,7 @@ RecordTerm(rp, i, typ, n, skip, opt, keyLen, ivLen) ==
          \* RFC 5288 3: nonce = salt (4, client/server_write_IV) + nonce_explicit (8, carried in the record);
          \* RFC 5246 6.2.3.3: additional_data = seq_num + type + version + length
          LET explicit == Var(VarName("explicit", i), 8)
-             aad == Cat(<<U64(seq), U8(typ), U16(rp.ver), U16(n)>>)
+             aad == Cat(<<seq, U8(typ), U16(rp.ver), U16(n)>>)
          IN Cat(<<Header(typ, rp.ver, 8 + n + 16), explicit,
                   Aead("aesgcm", key, Cat(<<Var("iv", 4), explicit>>), aad, pt)>>)
     [] rp.cls = "tls13" ->
@@ -164,8 +189,11 @@ RecordTerm(rp, i, typ, n, skip, opt, keyLen, ivLen) ==
          LET tk == TrafficKey(rp.suite13, Var("secret", HLen(Suite13Of(rp.suite13).h)))
              inner == Cat(<<pt, U8(typ), Rep(opt, 0)>>)
              hdr == Header(23, 772, TermLen(inner) + 16)
-             nonce == Xor(tk[2], Cat(<<Rep(4, 0), U64(seq)>>))
+             nonce == Xor(tk[2], Cat(<<Rep(4, 0), seq>>))
          IN Cat(<<hdr, Aead("aesgcm", tk[1], nonce, hdr, inner)>>)
+
+RecordTerm(rp, i, typ, n, skip, opt, keyLen, ivLen) ==
+  RecordTermS(rp, i, NumOf(Zero8, i), typ, n, skip, opt, keyLen, ivLen)
 
 (* where the harness takes the sender-chosen variables from: bytes [off, off+len) of the
    observed record number rec of the same sequence                                        *)
